@@ -1,6 +1,7 @@
 (* C06 on the L0 model: the tree format0 writes is a fixed point of format0's two passes, for every program in which no
-   unary minus is applied - through parentheses - to something that starts with a unary minus.  The condition is needed
-   (Fmt0Proof.norm0_not_idempotent_refuted: `(- -f())`, the listed known finding). *)
+   unary minus is written directly in front of something that starts with a unary minus (`- -x`).  The condition is needed
+   (Fmt0Proof.norm0_not_idempotent_refuted: `(- -f())`, the listed known finding).  What format0 writes never has such a
+   minus, so formatting twice always reaches a fixed point. *)
 From Coq Require Import List Bool.
 From SV Require Import Expr Parens ParensIdem CallForm Fmt0 Fmt0Proof.
 From Coq Require Import String.
@@ -22,11 +23,26 @@ Proof.
   intros G D. unfold droppable in *. apply andb_false_iff in D. apply andb_false_iff.
   destruct D as [D|D]; [left; apply check_stable; [apply gfe_gf; exact G|exact D]|right; exact D].
 Qed.
-Lemma guard0_free u x c : gfe (EUn u x) = true -> guard0 u (nexp c x) = nexp c x.
+Lemma shape_paren_inv z s0 : shape z = Paren s0 -> exists w, z = EParen w /\ shape w = s0.
+Proof. destruct z; cbn [shape]; intros H; try discriminate. injection H as <-. eexists; split; reflexivity. Qed.
+(* the guard either does nothing, or puts back parentheses that were written there and have just been dropped *)
+Lemma guard0_cases u e : gfe (EUn u e) = true ->
+  (guard0 u (nexp UB e) = nexp UB e /\ (u = Neg -> starts_neg (shape (nexp UB e)) = false))
+  \/ (u = Neg /\ exists w, e = EParen w /\ droppable UB (shape w) = true /\ starts_neg (shape (nexp UB w)) = true /\
+       nexp UB e = nexp UB w /\ guard0 u (nexp UB e) = EParen (nexp UB w)).
 Proof.
-  intros G. unfold guard0. destruct u; try reflexivity. rewrite shape_nexp.
-  destruct (starts_neg (fmt_single c (shape x))) eqn:S; [|reflexivity].
-  cbn [gfe] in G. apply andb_true_iff in G. destruct G as [G _]. rewrite (starts_neg_sn _ c S) in G. discriminate.
+  intros G. unfold guard0. destruct u; try (left; split; [reflexivity|discriminate]).
+  destruct (starts_neg (shape (nexp UB e))) eqn:S; [|left; split; [reflexivity|intros _; reflexivity]].
+  right. split; [reflexivity|]. rewrite shape_nexp in S.
+  assert (Gs : gf (Un Neg (shape e)) = true) by (apply (gfe_gf (EUn Neg e)); exact G).
+  destruct (guard_only_after_parentheses (shape e) Gs S) as (s0 & E & D & S2).
+  destruct (shape_paren_inv e s0 E) as (w & -> & <-). exists w.
+  assert (Y : nexp UB (EParen w) = nexp UB w) by (cbn [nexp]; rewrite D; reflexivity).
+  split; [reflexivity|]. split; [exact D|]. split; [rewrite shape_nexp; exact S2|]. split; [exact Y|]. rewrite Y. reflexivity.
+Qed.
+Lemma droppable_UB_stable w : gfe w = true -> droppable UB (shape w) = true -> droppable UB (fmt_single UB (shape w)) = true.
+Proof.
+  intros G D. unfold droppable in *. cbn [keeps negb] in *. rewrite andb_true_r in *. apply check_UB_stable; [apply gfe_gf; exact G|exact D].
 Qed.
 
 Section Idem.
@@ -43,9 +59,12 @@ Proof.
   - (* EIndex *) cbn [gfe] in G. apply andb_true_iff in G. destruct G as [G1 G2]. cbn [nexp cexp]. rewrite IHe1, IHe2 by assumption. reflexivity.
   - (* ECall *) cbn [gfe] in G. apply andb_true_iff in G. destruct G as [G1 G2]. cbn [nexp cexp]. rewrite IHe, (M args H G2) by assumption. reflexivity.
   - (* EMethod *) cbn [gfe] in G. apply andb_true_iff in G. destruct G as [G1 G2]. cbn [nexp cexp]. rewrite IHe, (M args H G2) by assumption. reflexivity.
-  - (* EUn *) cbn [nexp]. rewrite (guard0_free u e UB G). cbn [cexp nexp]. cbn [gfe] in G. apply andb_true_iff in G. destruct G as [G0 G].
-    rewrite IHe by exact G. f_equal. unfold guard0. destruct u; try reflexivity. rewrite shape_cexp, shape_nexp.
-    destruct (starts_neg (fmt_single UB (shape e))) eqn:S; [|reflexivity]. rewrite (starts_neg_sn _ UB S) in G0. discriminate.
+  - (* EUn *) assert (Ge : gfe e = true) by (cbn [gfe] in G; apply andb_true_iff in G; apply G).
+    cbn [nexp]. destruct (guard0_cases u e G) as [[E0 N]|(-> & w & -> & D & S & Y & E0)]; rewrite E0; cbn [cexp nexp].
+    + rewrite IHe by exact Ge. f_equal. unfold guard0. destruct u; try reflexivity. rewrite shape_cexp, (N eq_refl). reflexivity.
+    + (* the guard fired: the parentheses it wrote are dropped and written again *)
+      cbn [gfe] in Ge. specialize (IHe UB false Ge). rewrite Y in IHe.
+      rewrite shape_cexp, shape_nexp, (droppable_UB_stable w Ge D), IHe. unfold guard0. rewrite shape_cexp, S. reflexivity.
   - (* EBin *) cbn [gfe] in G. apply andb_true_iff in G. destruct G as [G1 G2]. cbn [nexp cexp]. rewrite IHe1, IHe2 by assumption. reflexivity.
   - (* EParen *) cbn [gfe] in G. cbn [nexp]. destruct (droppable c (shape e)) eqn:D; [apply IHe; exact G|].
     cbn [cexp nexp]. rewrite shape_cexp, shape_nexp, (droppable_stable c e G D), IHe by exact G. reflexivity.
@@ -69,9 +88,11 @@ Proof.
   - cbn [gfe] in G. apply andb_true_iff in G. destruct G as [G1 G2]. cbn [nexp]. rewrite IHe1, IHe2 by assumption. reflexivity.
   - cbn [gfe] in G. apply andb_true_iff in G. destruct G as [G1 G2]. cbn [nexp]. rewrite IHe, (M args H G2) by assumption. reflexivity.
   - cbn [gfe] in G. apply andb_true_iff in G. destruct G as [G1 G2]. cbn [nexp]. rewrite IHe, (M args H G2) by assumption. reflexivity.
-  - cbn [nexp]. rewrite (guard0_free u e UB G). cbn [nexp]. cbn [gfe] in G. apply andb_true_iff in G. destruct G as [G0 G].
-    rewrite IHe by exact G. f_equal. unfold guard0. destruct u; try reflexivity. rewrite shape_nexp.
-    destruct (starts_neg (fmt_single UB (shape e))) eqn:S; [|reflexivity]. rewrite (starts_neg_sn _ UB S) in G0. discriminate.
+  - assert (Ge : gfe e = true) by (cbn [gfe] in G; apply andb_true_iff in G; apply G).
+    cbn [nexp]. destruct (guard0_cases u e G) as [[E0 N]|(-> & w & -> & D & S & Y & E0)]; rewrite E0; cbn [nexp].
+    + rewrite IHe by exact Ge. f_equal. unfold guard0. destruct u; try reflexivity. rewrite (N eq_refl). reflexivity.
+    + cbn [gfe] in Ge. specialize (IHe UB Ge). rewrite Y in IHe.
+      rewrite shape_nexp, (droppable_UB_stable w Ge D), IHe. unfold guard0. rewrite S. reflexivity.
   - cbn [gfe] in G. apply andb_true_iff in G. destruct G as [G1 G2]. cbn [nexp]. rewrite IHe1, IHe2 by assumption. reflexivity.
   - cbn [gfe] in G. cbn [nexp]. destruct (droppable c (shape e)) eqn:D; [apply IHe; exact G|].
     cbn [nexp]. rewrite shape_nexp, (droppable_stable c e G D), IHe by exact G. reflexivity.
@@ -192,3 +213,43 @@ Definition idem_example : blk :=
 Example guard_free_example : guard_free idem_example = true /\ guard_free witness_not_idempotent = false
   /\ norm0 cfg_witness idem_example <> idem_example.
 Proof. repeat split; try (vm_compute; reflexivity). vm_compute. discriminate. Qed.
+
+(* ---------- what format0 writes meets the premise: formatting twice always reaches a fixed point ---------- *)
+Lemma gfe_nexp : forall e c, gfe (nexp c e) = true.
+Proof.
+  assert (M : forall l, Forall (fun e => forall c, gfe (nexp c e) = true) l -> forallb gfe (map (nexp Std) l) = true).
+  { induction 1 as [|x r Hx Hr IH]; [reflexivity|]. cbn [map forallb]. rewrite Hx, IH. reflexivity. }
+  induction e using exp_ind'; intros c; cbn [nexp gfe]; try reflexivity; rewrite ?IHe, ?IHe1, ?IHe2, ?(M _ H); try reflexivity.
+  - (* unary *) unfold guard0. destruct u; try (rewrite IHe; reflexivity).
+    destruct (starts_neg (shape (nexp UB e))) eqn:S; [cbn [shape starts_neg gfe negb andb]; apply IHe|rewrite S, IHe; reflexivity].
+  - (* parentheses *) destruct (droppable c (shape e)); [apply IHe|cbn [gfe]; apply IHe].
+Qed.
+Lemma gfe_cexp m : forall e o, gfe (cexp m o e) = gfe e.
+Proof.
+  assert (M : forall l, Forall (fun e => forall o, gfe (cexp m o e) = gfe e) l -> forallb gfe (map (cexp m false) l) = forallb gfe l).
+  { induction 1 as [|x r Hx Hr IH]; [reflexivity|]. cbn [map forallb]. rewrite Hx, IH. reflexivity. }
+  induction e using exp_ind'; intros o; cbn [cexp gfe]; try reflexivity; rewrite ?shape_cexp, ?IHe, ?IHe1, ?IHe2, ?(M _ H); reflexivity.
+Qed.
+Lemma gfe_ncond e : gfe (ncond e) = true. Proof. rewrite ncond_core. apply gfe_nexp. Qed.
+Lemma pall_nexps_true es : pall gfe (nexps es) = true.
+Proof. unfold pall, nexps. induction es as [|x r IH]; [reflexivity|]. cbn [map forallb]. rewrite gfe_nexp, IH. reflexivity. Qed.
+Theorem guard_free_nblk : forall b, sall_b gfe (nblk b) = true.
+Proof.
+  assert (HI : forall is, Forall (fun i => sall_i gfe (nitem i) = true) is -> forallb (sall_i gfe) (map nitem is) = true).
+  { induction 1 as [|i r Hi Hr IH]; [reflexivity|]. cbn [map forallb]. rewrite Hi, IH. reflexivity. }
+  assert (H : forall s, sall_s gfe (nstmt s) = true).
+  - apply (stmt_ind' (fun s => sall_s gfe (nstmt s) = true) (fun r => sall_r gfe (nels r) = true) (fun i => sall_i gfe (nitem i) = true) (fun b => sall_b gfe (nblk b) = true));
+      intros; try (cbn [nblk sall_b]; apply HI; assumption); cbn [nstmt nels nitem sall_s sall_r sall_i];
+      try (match goal with st : option exp |- _ => destruct st; cbn [option_map] end);
+      rewrite ?pall_nexps_true, ?gfe_ncond, ?gfe_nexp; cbn [andb];
+      repeat (apply andb_true_iff; split); try reflexivity; try assumption.
+  - intros [is tl]. cbn [nblk sall_b]. apply HI. apply Forall_forall. intros [l bl s t] _. cbn [nitem sall_i]. apply H.
+Qed.
+Theorem guard_free_norm0 c p : guard_free (norm0 c p) = true.
+Proof.
+  unfold guard_free, norm0, cprog, nprog. rewrite (proj2 (sall_smap_eq gfe (cexp (callp0 c) false) (fun e => gfe_cexp _ e false))). apply guard_free_nblk.
+Qed.
+Theorem norm0_second_pass_is_a_fixed_point c p : norm0 c (norm0 c (norm0 c p)) = norm0 c (norm0 c p).
+Proof. apply norm0_idempotent. apply guard_free_norm0. Qed.
+Theorem format0_third_pass_changes_nothing c p : format0 c (norm0 c (norm0 c p)) = format0 c (norm0 c p).
+Proof. apply format0_of_its_tree. apply guard_free_norm0. Qed.
